@@ -70,6 +70,8 @@ fn rect_v<H: std::ops::RangeBounds<u32>>(h: H, vf: &str, a: u32, b: u32) -> Rect
         "to" => (h, ..b).into(),
         "toi" => (h, ..=b).into(),
         "from" => (h, a..).into(),
+        // a pair of explicit bounds with an EXCLUDED start: the cells a+1 .. b-1
+        "ex" => (h, (std::ops::Bound::Excluded(a), std::ops::Bound::Excluded(b))).into(),
         _ => (h, ..).into(),
     }
 }
@@ -87,6 +89,7 @@ fn rect_of(r: &Value) -> Rect {
                 "to" => rect_v(..hb, vf, va, vb),
                 "toi" => rect_v(..=hb, vf, va, vb),
                 "from" => rect_v(ha.., vf, va, vb),
+                "ex" => rect_v((std::ops::Bound::Excluded(ha), std::ops::Bound::Excluded(hb)), vf, va, vb),
                 _ => rect_v(.., vf, va, vb),
             }
         }
@@ -423,7 +426,7 @@ fn gen_history(rng: &mut Rng, maxw: i64, maxh: i64, nops: usize) -> Vec<Value> {
     }
     // stack of (w, h) the generator believes in; exec skips what is not enabled
     let mut stack = vec![(cw, ch)];
-    let forms = ["rg", "ri", "to", "toi", "from", "full"];
+    let forms = ["rg", "ri", "to", "toi", "from", "full", "ex"];
     for _ in 0..nops {
         (cw, ch) = *stack.last().unwrap();
         // coordinates mostly inside, sometimes on or beyond the border
